@@ -310,14 +310,17 @@ fn size_helper(env: &TypeEnv, seen: &mut HashSet<String>, t: &Type) -> Option<us
             }
         }
         Empty => 0,
-        Opt(t) => 1 + size_helper(env, seen, t)?,
-        Vec(t) => 1 + size_helper(env, seen, t)? * 2,
+        // The estimate doubles with every `vec` level: saturate instead of overflowing.
+        Opt(t) => size_helper(env, seen, t)?.saturating_add(1),
+        Vec(t) => size_helper(env, seen, t)?
+            .saturating_mul(2)
+            .saturating_add(1),
         Record(fs) => {
-            let mut sum = 0;
+            let mut sum: usize = 0;
             for Field { ty, .. } in fs.iter() {
-                sum += size_helper(env, seen, ty)?;
+                sum = sum.saturating_add(size_helper(env, seen, ty)?);
             }
-            1 + sum
+            sum.saturating_add(1)
         }
         Variant(fs) => {
             let mut max = 0;
@@ -327,7 +330,7 @@ fn size_helper(env: &TypeEnv, seen: &mut HashSet<String>, t: &Type) -> Option<us
                     max = s;
                 };
             }
-            1 + max
+            max.saturating_add(1)
         }
         _ => 1,
     })
@@ -418,8 +421,8 @@ fn arbitrary_variant(u: &mut Unstructured, weight: &[usize]) -> Result<usize> {
     // TODO read from end of unstructured to improve stability
     let prefix_sum: Vec<_> = weight
         .iter()
-        .scan(0, |sum, i| {
-            *sum += i;
+        .scan(0usize, |sum, i| {
+            *sum = sum.saturating_add(*i);
             Some(*sum)
         })
         .collect();
